@@ -97,8 +97,13 @@ async def gather_excs(
     :param only:
         Optional specific type of exceptions to filter on and yield
     """
-    for res in await aio.gather(*aws, return_exceptions=True):
-        if isinstance(res, only):
+    futs = [aio.ensure_future(aw) for aw in aws]
+    results = await aio.gather(*futs, return_exceptions=True)
+    for fut, res in zip(futs, results):
+        # An exception instance can also be the (successful) result of
+        # an awaitable: only report the ones which were really raised
+        raised = fut.cancelled() or fut.exception() is not None
+        if raised and isinstance(res, only):
             yield res
 
 
